@@ -33,13 +33,13 @@ def run(R):
                 # carries at 2^8 or 2^16 instead of 2^32), and over the word boundary itself
                 if wide:
                     starts = [0, 1, 0xff, 0xffff, 0xffffff, 0xffffffff, 0xffffffff | (5 << 32), 0xfffffffe, 0xffffffffff, 0xffffffffffff, (1 << 56) - 1]
-                    starts += [R.rng.getrandbits(64) for _ in range(6 if thorough else 1)]
+                    starts += [R.rng.getrandbits(64) for _ in range(40 if thorough else 1)]
                 else:
                     starts = [0, 1, 0xff, 0xffff, 0xffffff, 0xfffffffe, 0xffffffff] if variant == "ietf" else [0, 1, 0xff, 0xffff, 0xffffff, 0x7fffffff]
                     # XChaCha: 32-bit counter as implemented and as in draft-irtf-cfrg-xchacha; not exercised across 2^32 (DESIGN.md C03)
-                    starts += [R.rng.getrandbits(32) & (0xffffffff if variant == "ietf" else 0x7fffffff) for _ in range(6 if thorough else 1)]
+                    starts += [R.rng.getrandbits(32) & (0xffffffff if variant == "ietf" else 0x7fffffff) for _ in range(40 if thorough else 1)]
                 for s in starts:
-                    n = R.rng.choice([130, 131, 192, 200] if thorough else [129, 130])
+                    n = R.rng.choice([130, 131, 192, 200, 257, 320, 511] if thorough else [129, 130])
                     h = sc.base(R, variant, rounds, kl, tag + "/%d" % s)
                     h["id"] = R.next_id()
                     pre = [] if s == 0 else [{"op": "set_counter" if wide else "seek", "x": 1, "block": sc.limbs(s)}]
